@@ -479,7 +479,13 @@ def run(tier):
             d1, d2 = strip(tagged(a, "dump-used")[0]), strip(tagged(a, "dump-used2")[0])
             key = "%s:ret=%s:e=%d:%s" % (use, ret_of(r), min(errs(r), 1), "unchanged" if d1 == d2 else "changed")
             dist["after_use"][key] = dist["after_use"].get(key, 0) + 1
-            if use in ("FWD", "BWD"):
+            used_ok = (tagged(a, "use") or [""])[0].startswith("R 1 ")
+            if use in ("FWD", "BWD") and not used_ok:
+                # the translation itself failed (e.g. the accepted rules make finalisation fail, exactly as the same
+                # lines do in a file: `uppercase n` for a character that is the base of `N`): the table was not "used for
+                # translation", the premise of this clause is not met (false alarm at thorough seed 3)
+                dist["after_use"]["use-failed"] = dist["after_use"].get("use-failed", 0) + 1
+            elif use in ("FWD", "BWD"):
                 if ret_of(r) != "0" or d1 != d2:
                     v.violation("C15:addition-after-use:" + use, "after the table had been used for translation lou_compileString returned %s and the "
                                 "table %s" % (ret_of(r), "changed" if d1 != d2 else "did not change"), rep)
